@@ -42,6 +42,18 @@ func isReservedHeader(k string) bool {
 		return false
 	}
 }
+
+// isHopByHopHeader reports the connection-specific header fields of HTTP/1.1:
+// they describe the client's connection, are not metadata of the call, and
+// HTTP/2 peers (a proxied gRPC back-end) refuse requests that carry them.
+func isHopByHopHeader(k string) bool {
+	switch k {
+	case "connection", "keep-alive", "proxy-connection", "transfer-encoding", "upgrade":
+		return true
+	default:
+		return false
+	}
+}
 func isWhitelistedHeader(k string) bool {
 	switch k {
 	case ":authority", "user-agent":
@@ -73,6 +85,9 @@ func newIncomingContext(ctx context.Context, header http.Header) (context.Contex
 	for k, vs := range header {
 		k = strings.ToLower(k)
 		if isReservedHeader(k) && !isWhitelistedHeader(k) {
+			continue
+		}
+		if isHopByHopHeader(k) {
 			continue
 		}
 		if strings.HasSuffix(k, binHdrSuffix) {
